@@ -58,7 +58,7 @@ WINDOW_PATHS = ["load.fast_confirmed", "load.fast_changed_debt_returned", "load.
                 "load.fallback_helped", "write.helped_reader", "write.help_lost_race"]
 
 
-def plan_core(pid, profile, level_text, extra_jobs=None, required=WINDOW_PATHS, asan=True):
+def plan_core(pid, profile, level_text, extra_jobs=None, required=WINDOW_PATHS, asan=True, memcheck=False):
     def jobs(tier, seed):
         js = [
             core_token(pid + ".token.quarantine", profile, T(tier, 2500, 120000)),
@@ -68,6 +68,12 @@ def plan_core(pid, profile, level_text, extra_jobs=None, required=WINDOW_PATHS, 
         if asan:
             js.append(core_free(pid + ".free.asan.tp", profile, T(tier, 6, 90), flavour="asan", alloc="real"))
             js.append(core_free(pid + ".free.asan.arc", profile, T(tier, 6, 90), flavour="asan", alloc="real", val="arc"))
+        if memcheck:
+            js.append({"name": pid + ".free.memcheck.arc", "flavour": "memcheck", "args": ["core", "profile=" + profile, "mode=free", "secs=%d" % T(tier, 4, 40), "alloc=real",
+                       "val=arc", "threads=4", "ops_lo=100", "ops_hi=300", "stall_s=120"], "shards": T(tier, 2, 8), "threads": 4, "timeout": 900})
+            if tier != "quick":
+                js.append({"name": pid + ".free.memcheck.tp", "flavour": "memcheck", "args": ["core", "profile=" + profile, "mode=free", "secs=40", "alloc=real",
+                           "val=tp", "threads=4", "ops_lo=100", "ops_hi=300", "stall_s=120"], "shards": 8, "threads": 4, "timeout": 900})
         if extra_jobs:
             js += extra_jobs(tier, seed)
         return js
@@ -154,9 +160,9 @@ def plan_c07():
 
 
 PLANS = {}
-PLANS["C01"] = plan_core("C01", "c01", "ledger + sanitizers over scheduled executions",
+PLANS["C01"] = plan_core("C01", "c01", "ledger + sanitizers over scheduled executions", memcheck=True,
                          extra_jobs=lambda tier, seed: miri_race_jobs("C01", tier, [("a", "tp"), ("b", "tp"), ("c", "arc"), ("e", "arc")], 8, 256))
-PLANS["C02"] = plan_core("C02", "c02", "conservation law at quiescent points",
+PLANS["C02"] = plan_core("C02", "c02", "conservation law at quiescent points", memcheck=True,
                          extra_jobs=lambda tier, seed: miri_race_jobs("C02", tier, [("a", "tp"), ("c", "tp"), ("b", "arc")], 8, 192))
 PLANS["C03"] = plan_core("C03", "c03", "history linearizability", asan=False,
                          extra_jobs=lambda tier, seed: [life_job("C03.life.token", "token", execs=T(tier, 400, 20000), profile="c03")])
@@ -213,7 +219,7 @@ def plan_c11():
         return e
     return {
         "level": "exploration",
-        "jobs": lambda tier, seed: life_jobs("C11", tier),
+        "jobs": lambda tier, seed: life_jobs("C11", tier) + [life_job("C11.life.free.tsan", "free", secs=T(tier, 4, 60), flavour="tsan", alloc="real", shards=2)],
         "rule": LIFE_RULE,
         "evidence": ev,
         "required": core_required(["node.reused", "node.new", "life.tls_gone_ops", "life.threads_created", "life.ownership_intervals", "write.helped_reader"]),
